@@ -155,6 +155,10 @@ class Axis(GetSetDelAttrMixin, AbstractAxis):
         values = self.values[item]
         if not isinstance(values, np.ndarray):
             return values # if collapsed to scalar, just return it
+        if type(item) is slice:
+            # not a view: labels edited in place on the new axis would otherwise
+            # change this axis behind its back (and behind its cached ordering)
+            values = values.copy()
         newaxis = Axis(values, self.name, tol=self.tol, **self.attrs)
         # slices keep the ordering
         if self._monotonic and type(item) is slice:
